@@ -690,3 +690,193 @@ Proof.
 Qed.
 
 End Mixed.
+
+Section MixedSucceeds.
+Variables (A : Arith.tables) (T : Offsets.otable) (TT : BuildIAT.ttable).
+Hypothesis HA : agree A T.
+Variables (hd : bytes -> hdrp) (sp : bytes -> stdp) (ip : bytes -> ipay) (ap : bytes -> apay).
+Variable kiat : bytes -> bool.
+
+Local Notation toe := (to_off_entry sp).
+Local Notation toi := (to_iat_entry ip).
+Local Notation fb := (f_batch A (hp_of hd) (fp_of sp)).
+Local Notation fe := (f_entry (fp_of sp)).
+Local Notation pok := (pair_ok A (hp_of hd) (fp_of sp)).
+Local Notation ksig := (kind_sig kiat).
+
+(* a file of standard (non-ADV) and IAT batches; the kind goes with the signature *)
+Definition mixed_file (inp : list batch) : Prop :=
+  Forall (fun b => b_entries b <> [] /\ b_adv b = [] /\ ksig b) inp.
+
+(* per (header, entry): the header is valid; under a standard header it is not ADV and the trace
+   number carries its ODFI; under an IAT header the ODFI is numeric, the mandatory addenda
+   records are there (addendaFieldInclusion), the trace number is numeric, the amount not negative *)
+Definition mixed_pair (p : bytes * entry) : Prop :=
+  hd_ok (hd (fst p)) = true /\
+  (kiat (fst p) = false -> hd_adv (hd (fst p)) = false /\ Offsets.trace_odfi (tnum (e_trace (snd p))) = hd_odfi_z (hd (fst p))) /\
+  (kiat (fst p) = true -> hd_odfi_num (hd (fst p)) = true /\ BuildIAT.incl_ok (toi (snd p)) = true
+                          /\ ip_tr_num (ip (e_core (snd p))) = true /\ 0 <= e_amount (snd p)).
+
+Lemma run_kind_sig order : Forall ksig order -> Forall ksig (all_batches (run order)).
+Proof.
+  apply run_P. intros m b Hm _ _. unfold kind_sig in *. now rewrite consume_kind, consume_sig.
+Qed.
+
+Lemma std_pairs_ok inp : Forall ksig inp ->
+  Forall (fun b => kiat (b_sig b) = false -> Arith.validate_batch A (fb b) = Arith.ROk) inp ->
+  Forall (fun p => kiat (fst p) = false -> pok p) (ids inp).
+Proof.
+  intros Hk Hv. induction inp as [|b l IH]; unfold ids; cbn [flat_map]; [constructor|].
+  inversion Hk as [|? ? Hb Hl]; subst. inversion Hv as [|? ? Vb Vl]; subst.
+  apply Forall_app. split; [|now apply IH].
+  apply Forall_forall. intros p Hp Hki.
+  assert (Hs : fst p = b_sig b) by (unfold ids_of in Hp; apply in_map_iff in Hp as (e & <- & _); reflexivity).
+  rewrite Hs in Hki. pose proof (valid_pairs A (hp_of hd) (fp_of sp) b (Vb Hki)) as Hall.
+  rewrite Forall_forall in Hall. now apply Hall.
+Qed.
+
+Lemma consolidated_created_mixed inf inp order all :
+  mixed_file inp ->
+  kinds_consistent inp -> Forall traces_nodup inp ->
+  Forall (fun b => kiat (b_sig b) = false -> Arith.validate_batch A (fb b) = Arith.ROk) inp ->
+  Forall mixed_pair (ids inp) ->
+  i_debit inf = sum_pairs (db_p T TT sp ip kiat) inp -> i_credit inf = sum_pairs (cr_p T TT sp ip kiat) inp ->
+  cat_rule inp ->
+  i_debit inf <= Arith.t_file_limit A -> i_credit inf <= Arith.t_file_limit A ->
+  Arith.t_file_limit A <= Arith.t_batch_limit A ->
+  admissible inp order -> Permutation all (all_batches (run order)) ->
+  Forall (fun x => (created_s A T hd sp kiat x \/ created_i TT hd ip kiat x) /\ StronglySorted trace_lt (b_entries x)) (pre all)
+  /\ Permutation (ids all) (ids inp).
+Proof.
+  intros Hmix Hk Hnd Hv Hmp E2 E3 Hcat L1 L2 L3 Hadm Hall. unfold mixed_file in Hmix.
+  assert (Hs : flatten_spec inp (finalize all)) by (exists order, all; split; [exact Hadm|split; [exact Hall|reflexivity]]).
+  destruct Hadm as (Hperm & Hsorted).
+  assert (Hne' : Forall nonempty inp) by (eapply Forall_impl; [|exact Hmix]; intros x (H & _); now left).
+  assert (Hks : Forall ksig inp) by (eapply Forall_impl; [|exact Hmix]; intros x (_ & _ & H); exact H).
+  destruct (flatten_conservation inp _ Hk Hs) as (P1 & P2).
+  destruct (flatten_wellformed inp _ Hnd Hne' Hs) as (Hw & _).
+  pose proof (flatten_pairs inp _ _ Hk Hs (std_pairs_ok inp Hks Hv)) as Hpok.
+  pose proof (flatten_pairs inp _ mixed_pair Hk Hs Hmp) as Hhdr.
+  pose proof (flatten_category inp _ Hk (cat_rule_uniform inp Hcat) Hs) as Hck.
+  assert (Hcok : forallb category_ok (finalize all) = true).
+  { unfold checked in Hck. destruct (forallb category_ok (finalize all)); [reflexivity|discriminate]. }
+  rewrite Forall_forall in Hpok, Hhdr.
+  (* every contribution to the totals is non-negative *)
+  assert (Hamt : forall p, In p (ids (finalize all)) -> 0 <= e_amount (snd p)).
+  { intros p Hp. destruct (kiat (fst p)) eqn:Eki.
+    - now destruct (Hhdr p Hp) as (_ & _ & H); destruct (H Eki) as (_ & _ & _ & Ha).
+    - destruct (Hpok p Hp Eki) as (_ & _ & Hst & _).
+      apply entry_static_spec in Hst as [Hst _]. apply validate_entry_facts in Hst as (_ & _ & Ha). now destruct (Ha eq_refl). }
+  assert (Hdb : forall p, In p (ids (finalize all)) -> 0 <= db_p T TT sp ip kiat p).
+  { intros p Hp. specialize (Hamt p Hp). unfold db_p. destruct (kiat (fst p)).
+    - unfold BuildIAT.idb_amt, to_iat_entry. cbn [BuildIAT.ie_code BuildIAT.ie_amount].
+      destruct (Offsets.mem _ (BuildIAT.tt_iat_credit TT)); [lia|]. destruct (Offsets.mem _ (BuildIAT.tt_iat_debit TT)); lia.
+    - unfold db_e, Offsets.db_amt, to_off_entry. cbn [Offsets.e_code Offsets.e_amount].
+      destruct (Offsets.mem _ (Offsets.t_credit T)); [lia|]. destruct (Offsets.mem _ (Offsets.t_debit T)); lia. }
+  assert (Hcr : forall p, In p (ids (finalize all)) -> 0 <= cr_p T TT sp ip kiat p).
+  { intros p Hp. specialize (Hamt p Hp). unfold cr_p. destruct (kiat (fst p)).
+    - unfold BuildIAT.icr_amt, to_iat_entry. cbn [BuildIAT.ie_code BuildIAT.ie_amount].
+      destruct (Offsets.mem _ (BuildIAT.tt_iat_credit TT)); lia.
+    - unfold cr_e, Offsets.cr_amt, to_off_entry. cbn [Offsets.e_code Offsets.e_amount].
+      destruct (Offsets.mem _ (Offsets.t_credit T)); lia. }
+  assert (Pall : Permutation (ids all) (ids inp)).
+  { destruct (run_ids order (kinds_consistent_perm _ _ (Permutation_sym Hperm) Hk)) as (R1 & _).
+    rewrite (ids_perm _ _ Hall), R1. now apply ids_perm. }
+  split; [|exact Pall].
+  assert (Hkind : Forall ksig (pre all)).
+  { assert (Ho : Forall ksig order).
+    { apply Forall_forall. intros b Hb. eapply Permutation_in in Hb; [|exact Hperm]. rewrite Forall_forall in Hks. now apply Hks. }
+    pose proof (run_kind_sig order Ho) as Hr. rewrite Forall_forall in Hr.
+    apply Forall_forall. intros x Hx. unfold pre in Hx. apply in_map_iff in Hx as (y & <- & Hy).
+    assert (Hy' : ksig y) by (apply Hr; eapply Permutation_in; [exact Hall|]; eapply Permutation_in; [apply sort_by_perm|exact Hy]).
+    exact Hy'. }
+  apply Forall_forall. intros x Hx. destruct (pre_in_out all x Hx) as (y & Hy & Ky & Sy & Ey & Ay).
+  rewrite Forall_forall in Hw, Hkind. destruct (Hw y Hy) as (Hso & Hnon).
+  assert (Hyadv : b_adv y = []).
+  { destruct (b_adv y) as [|a q] eqn:E; [reflexivity|]. exfalso.
+    assert (Hin : In (b_sig y, a) (adv_ids (finalize all))).
+    { unfold adv_ids. apply in_flat_map. exists y. split; [exact Hy|]. unfold adv_ids_of. rewrite E. now left. }
+    eapply Permutation_in in Hin; [|exact P2]. unfold adv_ids in Hin. apply in_flat_map in Hin as (z & Hz & Hin).
+    rewrite Forall_forall in Hmix. destruct (Hmix z Hz) as (_ & Za & _). unfold adv_ids_of in Hin. now rewrite Za in Hin. }
+  assert (Hxne : b_entries x <> []) by (rewrite <- Ey; destruct Hnon as [H|H]; [exact H|congruence]).
+  assert (Hidx : forall e, In e (b_entries x) -> In (b_sig x, e) (ids (finalize all))).
+  { intros e He. rewrite <- Sy. apply in_ids; [exact Hy|now rewrite Ey]. }
+  split; [|rewrite <- Ey; exact Hso].
+  assert (Hcx : category_ok x = true).
+  { rewrite forallb_forall in Hcok. specialize (Hcok y Hy). unfold category_ok in *. now rewrite <- Ey, <- Ay. }
+  destruct (b_entries x) as [|e0 es0] eqn:Ex; [congruence|]. rewrite <- Ex in *.
+  assert (Hi0 : In (b_sig x, e0) (ids (finalize all))) by (apply Hidx; rewrite Ex; now left).
+  destruct (Hhdr _ Hi0) as (Hok & Hstd & Hiat). cbn [fst snd] in Hok, Hstd, Hiat.
+  destruct (Hkind x Hx) as [(Kx & Kix)|(Kx & Kix)].
+  - (* standard *)
+    left. destruct (Hstd Kix) as (Hna & _).
+    assert (Hfit : fits A sp y).
+    { unfold fits. rewrite <- (full_debit A T HA sp), <- (full_credit A T HA sp), (debits_sum T sp), (credits_sum T sp).
+      assert (Kiy : kiat (b_sig y) = false) by now rewrite Sy.
+      split.
+      - rewrite <- (map_ext (fun e => db_p T TT sp ip kiat (b_sig y, e)) (db_e T sp)) by (intros e; unfold db_p; cbn [fst snd]; now rewrite Kiy).
+        eapply Z.le_trans; [apply (pair_member_le (db_p T TT sp ip kiat) (finalize all) y Hdb Hy)|].
+        rewrite (sum_pairs_perm _ _ _ P1), <- E2. lia.
+      - rewrite <- (map_ext (fun e => cr_p T TT sp ip kiat (b_sig y, e)) (cr_e T sp)) by (intros e; unfold cr_p; cbn [fst snd]; now rewrite Kiy).
+        eapply Z.le_trans; [apply (pair_member_le (cr_p T TT sp ip kiat) (finalize all) y Hcr Hy)|].
+        rewrite (sum_pairs_perm _ _ _ P1), <- E3. lia. }
+    split; [|exact Kix]. split; [exact Kx|]. split; [exact Hna|].
+    assert (Hvx : Arith.validate_batch A (fb x) = Arith.ROk).
+    { destruct Hfit as (F1 & F2). apply pairs_valid.
+      - apply Forall_forall. intros p Hp. unfold ids_of in Hp. apply in_map_iff in Hp as (e & <- & He). apply Hpok; [now apply Hidx|exact Kix].
+      - exact Hxne.
+      - rewrite <- Ey. exact Hso.
+      - rewrite <- Ey. exact F1.
+      - rewrite <- Ey. exact F2. }
+    destruct (create_std_spec A T HA hd sp x Hok Hxne) as (b' & Hc & He & Hctl & Hsk); [|exact Hvx|exact Hcx|].
+    + unfold traces_prefixed. apply Forall_forall. intros e He. destruct (Hhdr _ (Hidx e He)) as (_ & H & _). now destruct (H Kix).
+    + exists b'. split; [exact Hc|]. split; [exact Hctl|]. split; [exact He|]. split; [now rewrite Hsk|].
+      now rewrite (is_category_std_ok x Hxne).
+  - (* IAT *)
+    right. destruct (Hiat Kix) as (Hnum & _).
+    split; [exact Kx|]. split; [exact Kix|].
+    apply (create_iat_spec TT hd ip x Hok Hnum Hxne); [|exact Hcx].
+    apply Forall_forall. intros e He. destruct (Hhdr _ (Hidx e He)) as (_ & _ & H). cbn [fst snd] in H.
+    destruct (H Kix) as (_ & H1 & H2 & _). now split.
+Qed.
+
+(* FlattenBatches on a valid file of standard and IAT batches under the category rule *)
+Theorem flatten_succeeds_mixed inf inp r :
+  mixed_file inp -> inp <> [] -> i_hdr_ok inf = true ->
+  kinds_consistent inp -> Forall traces_nodup inp ->
+  Forall (fun b => kiat (b_sig b) = false -> Arith.validate_batch A (fb b) = Arith.ROk) inp ->
+  Forall mixed_pair (ids inp) ->
+  i_count inf = sum_pairs (cnt_p ip kiat) inp ->
+  i_debit inf = sum_pairs (db_p T TT sp ip kiat) inp -> i_credit inf = sum_pairs (cr_p T TT sp ip kiat) inp ->
+  cat_rule inp ->
+  i_debit inf <= Arith.t_file_limit A -> i_credit inf <= Arith.t_file_limit A ->
+  Arith.t_file_limit A <= Arith.t_batch_limit A ->
+  flatten_full_spec A T TT hd sp ip ap inf inp r ->
+  (fst r = FOk \/ (fst r = FErrValidate /\ file_ctl_ok A (snd r) = false))
+  /\ Offsets.fc_count (af_ctl (snd r)) = i_count inf
+  /\ Offsets.fc_debit (af_ctl (snd r)) = i_debit inf
+  /\ Offsets.fc_credit (af_ctl (snd r)) = i_credit inf
+  /\ exists all, r = finish A T TT hd sp ip ap inf all /\ flatten_spec inp (finalize all)
+       /\ (length (af_std (snd r)) + length (af_iat (snd r)) = length all)%nat
+       /\ Forall (fun x => (created_s A T hd sp kiat x \/ created_i TT hd ip kiat x) /\ StronglySorted trace_lt (b_entries x)) (pre all).
+Proof.
+  intros Hmix Hne Hh Hk Hnd Hv Hmp E1 E2 E3 Hcat L1 L2 L3 (order & all & Hadm & Hall & ->).
+  destruct (consolidated_created_mixed inf inp order all Hmix Hk Hnd Hv Hmp E2 E3 Hcat L1 L2 L3 Hadm Hall) as (Hcv & Pall).
+  assert (Hcr : Forall (fun x => created_s A T hd sp kiat x \/ created_i TT hd ip kiat x) (pre all))
+    by (eapply Forall_impl; [|exact Hcv]; intros x [H _]; exact H).
+  unfold mixed_file in Hmix.
+  assert (Hall_ne : all <> []).
+  { intros ->. destruct inp as [|b0 inp']; [congruence|]. inversion Hmix as [|? ? (Hb0 & _) _]; subst.
+    destruct (b_entries b0) as [|e0 q] eqn:E; [congruence|].
+    assert (Hin : In (b_sig b0, e0) (ids (b0 :: inp'))) by (apply in_ids; [now left|rewrite E; now left]).
+    eapply Permutation_in in Hin; [|apply Permutation_sym, Pall]. destruct Hin. }
+  destruct (finish_mixed A T TT hd sp ip ap kiat inf all Hh Hall_ne Hcr) as (R1 & R2 & R3 & R4 & R5).
+  - rewrite E1. symmetry. now apply sum_pairs_perm.
+  - rewrite E2. symmetry. now apply sum_pairs_perm.
+  - rewrite E3. symmetry. now apply sum_pairs_perm.
+  - split; [exact R1|]. split; [exact R3|]. split; [exact R4|]. split; [exact R5|].
+    exists all. split; [reflexivity|]. split; [exists order, all; split; [exact Hadm|split; [exact Hall|reflexivity]]|].
+    split; [exact R2|exact Hcv].
+Qed.
+
+End MixedSucceeds.
